@@ -78,6 +78,19 @@ class _Handler(http.server.BaseHTTPRequestHandler):
     def log_message(self, *a):
         pass
 
+    def setup(self):
+        super().setup()
+        with self.server.lock:
+            self.server.conns.add(self.connection)
+
+    def finish(self):
+        with self.server.lock:
+            self.server.conns.discard(self.connection)
+        try:
+            super().finish()
+        except OSError:
+            pass
+
     def _do(self, send_body):
         srv = self.server
         blob = srv.resources.get(self.path)
@@ -109,6 +122,10 @@ class _Handler(http.server.BaseHTTPRequestHandler):
 class _TServer(socketserver.ThreadingMixIn, http.server.HTTPServer):
     daemon_threads = True
     allow_reuse_address = True
+    request_queue_size = 64
+
+    def handle_error(self, request, client_address):
+        pass        # reset connections are expected (clients abandon streamed responses)
 
 
 class RangeServer:
@@ -117,6 +134,7 @@ class RangeServer:
         self.httpd.resources = {}
         self.httpd.requests = []
         self.httpd.lock = threading.Lock()
+        self.httpd.conns = set()
         self.port = self.httpd.server_address[1]
         self.thread = threading.Thread(target=self.httpd.serve_forever,
                                        kwargs={"poll_interval": 0.05}, daemon=True)
@@ -135,6 +153,16 @@ class RangeServer:
     def close(self):
         self.httpd.shutdown()
         self.httpd.server_close()
+        # keep-alive connections of clients that never close (dclab leaves the streamed header
+        # request unread) would otherwise keep their handler threads and descriptors forever
+        import socket
+        with self.httpd.lock:
+            conns = list(self.httpd.conns)
+        for c in conns:
+            try:
+                c.shutdown(socket.SHUT_RDWR)
+            except OSError:
+                pass
 
 
 _relaxed = False
